@@ -1,0 +1,179 @@
+//go:build verif
+
+package gmtls
+
+// Verification hooks (build tag "verif" only): session-ticket codec, ticket
+// sealing/opening on a bare Config, client session state accessors, and the LRU
+// client session cache internals.  Nothing here is compiled without the tag.
+
+import "container/list"
+
+// VerifSessionState is the exported mirror of sessionState.
+type VerifSessionState struct {
+	Vers         uint16
+	CipherSuite  uint16
+	MasterSecret []byte
+	Certificates [][]byte
+	UsedOldKey   bool
+}
+
+func (v *VerifSessionState) in() *sessionState {
+	return &sessionState{vers: v.Vers, cipherSuite: v.CipherSuite, masterSecret: v.MasterSecret,
+		certificates: v.Certificates, usedOldKey: v.UsedOldKey}
+}
+
+func verifOut(s *sessionState) *VerifSessionState {
+	if s == nil {
+		return nil
+	}
+	return &VerifSessionState{Vers: s.vers, CipherSuite: s.cipherSuite, MasterSecret: s.masterSecret,
+		Certificates: s.certificates, UsedOldKey: s.usedOldKey}
+}
+
+// VerifSessionStateMarshal calls (*sessionState).marshal.
+func VerifSessionStateMarshal(v *VerifSessionState) []byte { return v.in().marshal() }
+
+// VerifSessionStateUnmarshal calls (*sessionState).unmarshal on a fresh state.
+func VerifSessionStateUnmarshal(data []byte) (*VerifSessionState, bool) {
+	s := new(sessionState)
+	ok := s.unmarshal(data)
+	return verifOut(s), ok
+}
+
+// VerifSessionStateEqual calls (*sessionState).equal.
+func VerifSessionStateEqual(a, b *VerifSessionState) bool { return a.in().equal(b.in()) }
+
+// VerifEncryptTicket runs encryptTicket on a connection that only carries cfg.
+func VerifEncryptTicket(cfg *Config, v *VerifSessionState) ([]byte, error) {
+	cfg.serverInitOnce.Do(func() { cfg.serverInit(nil) })
+	c := &Conn{config: cfg}
+	return c.encryptTicket(v.in())
+}
+
+// VerifDecryptTicket runs decryptTicket on a connection that only carries cfg.
+// The argument is copied first (decryptTicket decrypts in place).
+func VerifDecryptTicket(cfg *Config, encrypted []byte) (*VerifSessionState, bool) {
+	cfg.serverInitOnce.Do(func() { cfg.serverInit(nil) })
+	c := &Conn{config: cfg}
+	s, ok := c.decryptTicket(append([]byte{}, encrypted...))
+	return verifOut(s), ok
+}
+
+// VerifTicketKeyNames returns the key names of the configured ticket keys, in order.
+func VerifTicketKeyNames(cfg *Config) [][]byte {
+	cfg.serverInitOnce.Do(func() { cfg.serverInit(nil) })
+	var out [][]byte
+	for _, k := range cfg.ticketKeys() {
+		out = append(out, append([]byte{}, k.keyName[:]...))
+	}
+	return out
+}
+
+// VerifClientSession exposes the fields of a ClientSessionState.
+type VerifClientSession struct {
+	SessionTicket      []byte
+	Vers               uint16
+	CipherSuite        uint16
+	MasterSecret       []byte
+	ServerCertificates [][]byte // raw DER
+}
+
+// VerifClientSessionFields reads a ClientSessionState.
+func VerifClientSessionFields(cs *ClientSessionState) *VerifClientSession {
+	if cs == nil {
+		return nil
+	}
+	v := &VerifClientSession{SessionTicket: append([]byte{}, cs.sessionTicket...), Vers: cs.vers,
+		CipherSuite: cs.cipherSuite, MasterSecret: append([]byte{}, cs.masterSecret...)}
+	for _, c := range cs.serverCertificates {
+		v.ServerCertificates = append(v.ServerCertificates, c.Raw)
+	}
+	return v
+}
+
+// VerifClientSessionWithTicket returns a copy of cs that carries another ticket
+// (everything else, including the master secret, unchanged).
+func VerifClientSessionWithTicket(cs *ClientSessionState, ticket []byte) *ClientSessionState {
+	n := *cs
+	n.sessionTicket = append([]byte{}, ticket...)
+	return &n
+}
+
+// VerifClientSessionForge returns a copy of cs whose claimed version / cipher suite
+// are replaced (0 keeps the field) and, if ticket is non-nil, whose ticket is replaced.
+func VerifClientSessionForge(cs *ClientSessionState, vers, suite uint16, ticket []byte) *ClientSessionState {
+	n := *cs
+	if vers != 0 {
+		n.vers = vers
+	}
+	if suite != 0 {
+		n.cipherSuite = suite
+	}
+	if ticket != nil {
+		n.sessionTicket = append([]byte{}, ticket...)
+	}
+	return &n
+}
+
+// VerifEKM evaluates ekmFromMasterSecret for the given parameters: the exporter
+// a connection with this master secret and these randoms would hand out.
+func VerifEKM(version, suiteID uint16, masterSecret, clientRandom, serverRandom []byte, label string, context []byte, length int) ([]byte, error) {
+	var suite *cipherSuite
+	for _, s := range cipherSuites {
+		if s.id == suiteID {
+			suite = s
+		}
+	}
+	for _, s := range gmCipherSuites {
+		if s.id == suiteID {
+			suite = s
+		}
+	}
+	if suite == nil {
+		suite = cipherSuites[0]
+	}
+	return ekmFromMasterSecret(version, suite, masterSecret, clientRandom, serverRandom)(label, context, length)
+}
+
+// VerifLRUDump returns the (sessionKey, state) entries of an LRU client session
+// cache front (most recently used) to back, the sorted-by-list-order key set of
+// its map, and its capacity.  ok is false if cache is not the package's LRU cache.
+func VerifLRUDump(cache ClientSessionCache) (keys []string, states []*ClientSessionState, mapKeys []string, capacity int, ok bool) {
+	c, isLRU := cache.(*lruSessionCache)
+	if !isLRU {
+		return nil, nil, nil, 0, false
+	}
+	c.Lock()
+	defer c.Unlock()
+	var e *list.Element
+	for e = c.q.Front(); e != nil; e = e.Next() {
+		ent := e.Value.(*lruSessionCacheEntry)
+		keys = append(keys, ent.sessionKey)
+		states = append(states, ent.state)
+		// a key of the map must point at this very element
+		if c.m[ent.sessionKey] == e {
+			mapKeys = append(mapKeys, ent.sessionKey)
+		}
+	}
+	// keys of the map that do not point at a list element carrying them
+	for k, el := range c.m {
+		if el == nil || el.Value.(*lruSessionCacheEntry).sessionKey != k {
+			mapKeys = append(mapKeys, "!"+k)
+		}
+	}
+	return keys, states, mapKeys, c.capacity, true
+}
+
+// VerifNewClientSession builds a ClientSessionState that only carries a tag
+// (used to drive the LRU cache with distinguishable values).
+func VerifNewClientSession(tag uint16) *ClientSessionState {
+	return &ClientSessionState{vers: tag}
+}
+
+// VerifClientSessionTag reads the tag back (-1 for nil).
+func VerifClientSessionTag(cs *ClientSessionState) int {
+	if cs == nil {
+		return -1
+	}
+	return int(cs.vers)
+}
